@@ -23,10 +23,13 @@ pub fn class_to_char(c: &str) -> char {
     }
 }
 
+/// white space as `str::trim` understands it (every char with the Unicode property White_Space): class "s"
+pub const BLANKS: [char; 8] = [' ', '\t', '\u{a0}', '\u{b}', '\u{2003}', '\n', '\u{85}', '\u{1680}'];
+
 pub fn char_to_class(c: char) -> String {
     match c {
         'a' => "a".into(),
-        ' ' => "s".into(),
+        c if BLANKS.contains(&c) => "s".into(),
         ',' => ",".into(),
         '=' => "=".into(),
         '\\' => "b".into(),
@@ -71,6 +74,16 @@ impl Family for Options {
         let one = project(&["slicec".into(), "-G".into(), s.clone()], 0);
         if &one != expect {
             return Outcome { fail: Some(mismatch("single -G", expect.clone(), one)), nontrivial, key, rendered };
+        }
+        // (1b) the same with every blank written as some other white-space character (two assignments)
+        if s.contains(' ') {
+            for k in 1..=2usize {
+                let other: String = s.chars().enumerate().map(|(i, c)| if c == ' ' { BLANKS[(i * 3 + k * 5 + (key >> 7) as usize) % BLANKS.len()] } else { c }).collect();
+                let got = project(&["slicec".into(), "-G".into(), other.clone()], 0);
+                if &got != expect {
+                    return Outcome { fail: Some(mismatch(&format!("single -G with other white-space characters ({:?})", other), expect.clone(), got)), nontrivial, key, rendered };
+                }
+            }
         }
         // (2) repeated -G: the value second, after a plain one; each keeps its own result
         if expect["res"] == "ok" {
